@@ -251,14 +251,31 @@ class Verifier(Engine):
         if z3.is_false(cs):
             return self.ev(n.orelse)
         mark = len(self.st.pc)
+        heap0 = dict(self.st.heap)
         self.st.pc.append(c)
         a = self.ev_v(n.body)
         ea = self.st.pc[mark + 1:]
         del self.st.pc[mark:]
+        heap_a = self.st.heap
+        self.st.heap = dict(heap0)
         self.st.pc.append(z3.Not(c))
         b = self.ev_v(n.orelse)
         eb = self.st.pc[mark + 1:]
         del self.st.pc[mark:]
+        heap_b = self.st.heap
+        # heap effects of the two arms (e.g. a list literal in one of them) are merged under the condition
+        merged = dict(heap_b)
+        for k in set(heap_a) | set(heap_b):
+            ta, tb = heap_a.get(k), heap_b.get(k)
+            if ta is None or tb is None:
+                base = heap0.get(k, self._init_heap.get(k))
+                if base is None:
+                    self.st.heap = heap_a if ta is not None else heap_b
+                    base = self.hget(k, (ta if ta is not None else tb).sort())
+                ta = ta if ta is not None else base
+                tb = tb if tb is not None else base
+            merged[k] = ta if ta.get_id() == tb.get_id() else z3.If(c, ta, tb)
+        self.st.heap = merged
         for e in ea:
             self.st.pc.append(z3.Implies(c, e))
         for e in eb:
@@ -1356,11 +1373,15 @@ class Verifier(Engine):
 
     def havoc(self, modifies, env, allocates=False):
         IntS = z3.IntSort()
+        # every `X@objs` target denotes an object of the PRE-state: evaluate them all before anything is havoced
+        evaluated = {}
         for m in modifies:
             if "@" in m:
-                key, objs = m.split("@", 1)
-                key = key.strip()
-                targets = [self.spec_value(o.strip(), env) for o in _split_top(objs)]
+                evaluated[m] = [self.spec_value(o.strip(), env) for o in _split_top(m.split("@", 1)[1])]
+        for m in modifies:
+            if "@" in m:
+                key = m.split("@", 1)[0].strip()
+                targets = evaluated[m]
             else:
                 key, targets = m.strip(), None
             if key in ("list", "deque", "set", "dict"):
